@@ -170,21 +170,21 @@ s=s.replace("fn check_invariants(","fn verify_shadow(").replace("self.check_inva
 open(p,'w').write(s)
 p='/work/mut-sim-scan/src/simulator/crash.rs'
 s=open(p).read()
-s=s.replace("pub fn crashed_nodes(&self)","pub fn crashed_nodes(&self) -> Vec<usize> {\n        self.crashed_sorted()\n    }\n\n    fn crashed_sorted(&self)",1)
+s=s.replace("pub fn crashed_nodes(&self)","pub fn crashed_nodes(&self) -> Vec<HostId> {\n        self.crashed_sorted()\n    }\n\n    fn crashed_sorted(&self)",1)
 open(p,'w').write(s)
 PY
 scan; fi
 
-if sel h2; then echo "== (h2) HARMLESS: container types change (HashMap -> BTreeMap in BuggifyStats, HashSet -> BTreeSet for the shadow of hash_dst), comments and formatting move lines"
+if sel h2; then echo "== (h2) HARMLESS: container types change (HashMap -> BTreeMap in BuggifyStats, HashMap -> BTreeMap for CrashStats.crashes_by_reason), comments and formatting move lines"
 python3 - <<'PY'
 p='/work/mut-sim-scan/src/buggify/mod.rs'
 s=open(p).read()
 s=s.replace("use std::collections::HashMap;","use std::collections::BTreeMap as HashMapOrdered;\n\n\n// (lines moved)\n")
 s=s.replace("pub checks: HashMap<String, u64>","pub checks: HashMapOrdered<String, u64>").replace("pub triggers: HashMap<String, u64>","pub triggers: HashMapOrdered<String, u64>")
 open(p,'w').write(s)
-p='/work/mut-sim-scan/src/redis/hash_dst.rs'
+p='/work/mut-sim-scan/src/simulator/crash.rs'
 s=open(p).read()
-s=s.replace("expected_fields: HashSet<String>,","expected_fields: std::collections::BTreeSet<String>,").replace("expected_fields: HashSet::new(),","expected_fields: std::collections::BTreeSet::new(),")
+s=s.replace("    pub crashes_by_reason: HashMap<String, u64>,","    pub crashes_by_reason: std::collections::BTreeMap<String, u64>,")
 open(p,'w').write(s)
 PY
 scan; fi
